@@ -112,10 +112,74 @@ impl VacuumStats {
 
 make_shared_readonly!(SharedCatalog, Catalog);
 
+impl SharedCatalog {
+    /// Hands out the next row id of `relation` (a table). The counter starts from the `next_row_id`
+    /// stored in the catalog row and never goes below what any caller has seen there.
+    ///
+    /// The id comes as a lease: unless the caller keeps it (the row was inserted), dropping the lease
+    /// gives the id back, provided no later id has been handed out in the meantime. A statement that
+    /// fails before it inserts its row therefore does not use up a row id when nobody else is inserting.
+    pub(crate) fn lease_row_id(&self, relation: &Relation) -> RowIdLease {
+        let catalog = self;
+        let persisted = relation.next_row_id().value();
+        let mut ids = catalog.row_ids.lock();
+        let next = ids.entry(relation.object_id()).or_insert(persisted);
+        if *next < persisted {
+            *next = persisted;
+        }
+        let id = *next;
+        *next += 1;
+        RowIdLease {
+            catalog: catalog.clone(),
+            table: relation.object_id(),
+            id,
+            kept: false,
+        }
+    }
+}
+
+/// A row id handed out by [`SharedCatalog::lease_row_id`].
+pub(crate) struct RowIdLease {
+    catalog: SharedCatalog,
+    table: ObjectId,
+    id: u64,
+    kept: bool,
+}
+
+impl RowIdLease {
+    pub(crate) fn id(&self) -> u64 {
+        self.id
+    }
+
+    /// The row has been inserted under this id.
+    pub(crate) fn keep(mut self) {
+        self.kept = true;
+    }
+}
+
+impl Drop for RowIdLease {
+    fn drop(&mut self) {
+        if self.kept {
+            return;
+        }
+        let mut ids = self.catalog.row_ids.lock();
+        if ids.get(&self.table) == Some(&(self.id + 1)) {
+            ids.insert(self.table, self.id);
+        }
+    }
+}
+
 pub struct Catalog {
     meta_table: PageId,
     meta_index: PageId,
     pager: SharedPager,
+    /// Next row id of every table that has been inserted into since the database was opened.
+    ///
+    /// Row ids are handed out here, under this lock, not by reading `next_row_id` from the catalog row:
+    /// that read happens under the inserter's snapshot and the write-back happens at the end of the
+    /// insert, so two concurrent inserters used to get the same row id, and the second insert was
+    /// silently dropped as "already there".
+    row_ids: parking_lot::Mutex<std::collections::HashMap<ObjectId, u64>>,
 }
 
 impl Catalog {
@@ -124,6 +188,7 @@ impl Catalog {
             meta_table,
             meta_index,
             pager,
+            row_ids: parking_lot::Mutex::new(std::collections::HashMap::new()),
         }
     }
 
@@ -524,9 +589,16 @@ impl Catalog {
         let relation_id_bytes = UInt64(relation_id).serialize()?;
         let mut changes = std::collections::HashMap::new();
 
+        // The stored `next_row_id` follows the allocator: what is written is the allocator's current
+        // value, and the lock is kept until the catalog row is written, so that concurrent inserters
+        // cannot store their values out of order.
+        let mut _row_ids_guard = None;
         if let Some(id) = new_row_id {
+            let ids = self.row_ids.lock();
+            let id = ids.get(&relation_id).copied().map_or(id, |next| next.max(id));
             let col_id = schema.bind_value("next_row_id")?;
             changes.insert(col_id, DataType::BigUInt(UInt64::from(id)));
+            _row_ids_guard = Some(ids);
         }
 
         if let Some(table_schema) = new_schema {
